@@ -40,8 +40,10 @@ SCENARIOS = {
                    _man('other.app', data_retention_timeout='0s'),
                    _man('proid.web', 1, 1, 1, schedule_once=True, identity_group='proid.g1'),
                    _man('proid.db', 1, 1, 1, traits=['t1'], data_retention_timeout='5s'),
-                   _man('other.app', 1, 1, 1, lease='5d', data_retention_timeout='30d')],
-        groups={'proid.g1': 2},
+                   _man('other.app', 1, 1, 1, lease='5d', data_retention_timeout='30d'),
+                   dict(name='proid.web', demand=[512, 0, 512], affinity='web',
+                        identity_group='proid.g1', data_retention_timeout='1s')],
+        groups={'proid.g1': 3},
         apps=['a1', 'a2', 'a3', 'a4']),
 }
 
@@ -132,6 +134,50 @@ def gen_random(scn, rng, depth):
             hist.append(('Restart', []))
             alive = True
     hist.append(('Cycle', []) if alive else ('Restart', []))
+    hist.append(('Restart', []))
+    return hist
+
+
+def gen_identity(scn, rng, depth):
+    """Focused L2 histories: instances of one identity group come and go while
+    the group is resized, with cycles and restarts in between (small alphabet,
+    so that specific short sequences are reached often)."""
+    web = [i + 1 for i, p in enumerate(scn['aprofiles']) if p.get('identity_group')]
+    g = sorted(scn['groups'])[0]
+    apps, hist = [], []
+    if rng.random() < 0.5:
+        # a single candidate server: what loses its placement inside a cycle is
+        # put back on the very same server by that cycle
+        servers = sorted(s for s, k in scn['server_init'].items() if k)
+        keep = rng.choice(servers[:2])
+        for s in servers[:2]:
+            if s != keep:
+                hist.append(('NodeDown', [s]))
+    for a in scn['apps'][:rng.randrange(2, len(scn['apps']) + 1)]:
+        apps.append(a)
+        hist.append(('CreateApp', [a, rng.choice(web)]))
+    hist.append(('Cycle', []))
+    for _ in range(depth):
+        r = rng.random()
+        free = [a for a in scn['apps'] if a not in apps]
+        if r < 0.30:
+            hist.append(('Cycle', []))
+        elif r < 0.55:
+            hist.append(('SetGroup', [g, rng.randrange(0, 4)]))
+        elif r < 0.70 and apps:
+            a = rng.choice(apps)
+            apps.remove(a)
+            hist.append(('DeleteApp', [a]))
+        elif r < 0.85 and free:
+            apps.append(free[0])
+            hist.append(('CreateApp', [free[0], rng.choice(web)]))
+        elif r < 0.90:
+            hist.append(('DelGroup', [g]))
+        elif r < 0.95:
+            hist.append(('Tick', [rng.choice([1, 3])]))
+        else:
+            hist.append(('Restart', []))
+    hist.append(('Cycle', []))
     hist.append(('Restart', []))
     return hist
 
